@@ -1353,7 +1353,7 @@ class Ex(Ctx):
                 if k.const is not None and off.const is not None:
                     noff = lit(off.const + k.const * size, "usize")
                 else:
-                    step = k.p() if size == 1 else f"{k.p()} * {size}"
+                    step = str(k.const * size) if k.const is not None else (k.p() if size == 1 else f"{k.p()} * {size}")
                     noff = V(f"({off.p()} + {step})", "usize")
                 return V("<ptr>", r.ty, ptr=(buf, kind, noff))
         if name == "align_offset" and len(args) == 1:
@@ -1692,6 +1692,11 @@ class Ex(Ctx):
             if pat[1] == "_":
                 return
             if v.ptr is not None or v.ty == "fnname":
+                if v.ptr is not None and v.ptr[0] == pat[1]:
+                    # `let x = x.as_ptr();` shadows the buffer the pointer points into: keep the buffer under a hidden name
+                    hidden = pat[1] + "#buf"
+                    self.env[hidden] = self.lookup(pat[1])
+                    v = V(v.t, v.ty, ptr=(hidden, v.ptr[1], v.ptr[2]))
                 self.declare_local(pat[1], v)
                 return
             nv = self.let_(pat[1], v.t, v.ty, v.const, force=not re.fullmatch(r"[\w']+", v.t) or v.const is not None and v.ty != "usize")
@@ -1854,7 +1859,8 @@ class Ex(Ctx):
         return None
 
     def emit_loop(self, sub, count_text, cv):
-        state = [pl for pl in sub.captures if pl in sub.written]
+        order = {pl: i for i, pl in enumerate(self.env)}
+        state = sorted([pl for pl in sub.captures if pl in sub.written], key=lambda pl: order.get(pl, 1 << 30))
         ro = [pl for pl in sub.captures if pl not in sub.written]
         if not state:
             raise TranslateError("loop without effect")
@@ -2107,6 +2113,8 @@ def translate(k):
     finals = []
     for pl, t in outs:
         v = ex.whole(pl) if (isinstance(t, tuple) and t[0] == "struct") else ex.lookup(pl)
+        if v.ptr is not None:
+            v = ex.lookup(v.ptr[0])
         finals.append(v.t)
     diverged = getattr(ex, "diverged", False)
     if rty != "unit":
